@@ -1269,7 +1269,8 @@ func (c *control) dirR(colon, at bool, params []any) {
 					words = append(words, one[d-'0'])
 				}
 			}
-			if zero {
+			if zero && 0 < len(trip) {
+				// drop the name of a period that is all zeros (the lowest period has no name)
 				words = words[:len(words)-1]
 			}
 			if i < 0 {
